@@ -377,9 +377,7 @@ def F22():
     import os, tempfile
     f = tempfile.mktemp(suffix=".toml")
     with open(f, "w") as fh:
-        fh.write('[vloss]
-vdrop = {vi=[2.5], io=[0.1,0.5,0.9], vdrop=[[0.2,0.4,0.5]]}
-')
+        fh.write("[vloss]\nvdrop = {vi=[2.5], io=[0.1,0.5,0.9], vdrop=[[0.2,0.4,0.5]]}\n")
     try:
         VLoss.from_file("a", fname=f)
         return []
